@@ -103,6 +103,24 @@ PROPS = {
                 "compared with the model; the predicate P08 of the theorem evaluated on the implementation's own trace; distinct = distinct scripts",
         "assumptions": STD_ASSUME_PURE + ["a wrong protocol string is a decode error (C06); the manager forgets the peer on KillReq (kill step, C12)"],
     },
+    "C15": {
+        "lean_modules": ["RdestModel.Props.C15"],
+        "cases": {"quick": 5000, "thorough": 150000},
+        "rule": "random values of depth <= 5: integers over the full i64 range with boundary set {0,+-1,9,10,i64::MIN,i64::MAX,+-2^31}, binary strings "
+                "incl. ones made of ':' 'e' 'i' 'l' 'd' '-' and digits, empty containers, dictionary keys that are prefixes of one another; per case "
+                "encode (BEncoder) then decode (BDecoder) compared with the model and with the round-trip oracle; every third case: a canonical "
+                "document (encoding of 1-2 values) decoded and re-encoded must be reproduced byte for byte; distinct = distinct argument lines",
+        "assumptions": STD_ASSUME_PURE + ["recursion depth of the Rust encoder/decoder on pathologically deep values (stack) is outside the model"],
+    },
+    "C16": {
+        "lean_modules": ["RdestModel.Props.C16"],
+        "cases": {"quick": 12000, "thorough": 1200000},
+        "rule": "EXHAUSTIVE over all strings over the alphabet {0 1 9 i l d e : - a} up to length 4 (quick; 6 in thorough = 1.1 M strings), plus random "
+                "strings of length 5..12 over that alphabet, truncations at a random position and single-byte mutations of valid documents; "
+                "BDecoder::from_array result (accept/reject and the decoded values) compared with the strict grammar (oracle) and the implementation "
+                "model; inputs inside the recorded class EofInsideContainer are reported as KNOWN-FINDING; distinct = distinct inputs",
+        "assumptions": STD_ASSUME_PURE + ["stack overflow on nesting depth ~10^4+ is an abort, not a Rust panic, and is outside the model"],
+    },
     "C20": {
         "lean_modules": ["RdestModel.Props.C20"],
         "cases": {"quick": 400, "thorough": 12000},
